@@ -686,6 +686,28 @@ def install(I):
         return outs + [Outcome(o.st, 'ret', some(o.val)) if o.kind == 'ret' else o for o in r]
     M['core::bool::<impl bool>::then'] = m_then
 
+    # ---------------------------------------------------------------- integer ranges as iterators (`for i in a..b`)
+    def m_into_iter_identity(ctx):
+        # the blanket `impl<I: Iterator> IntoIterator for I`
+        return ctx.args[0]
+    M['<I as core::iter::IntoIterator>::into_iter'] = m_into_iter_identity
+
+    def m_range_next(ctx):
+        """exact while the comparison `start < end` is decided by the path (constant bounds, or bounds the path has related); otherwise
+        the call stays opaque as before"""
+        I, st = ctx.I, ctx.st
+        ref = ctx.args[0]
+        r = deref(ctx, ref)
+        if isinstance(ref, Ref) and isinstance(r, Struct) and len(r.fields) == 2 and all(isinstance(x, BV) for x in r.fields):
+            a, b = I.norm(st, r.fields[0]), I.norm(st, r.fields[1])
+            if a.is_const() and b.is_const():
+                if a.value() < b.value():
+                    I._store_at(st, ref.loc, ref.path, Struct(r.name, [BV.const(a.w, a.value() + 1, a.signed), r.fields[1]]))
+                    return some(a)
+                return none()
+        return I.opaque_call(ctx)
+    M['core::iter::range::<impl core::iter::Iterator for core::ops::Range<A>>::next'] = m_range_next
+
     # ---------------------------------------------------------------- comparisons
     def cmp_model(op):
         def f(ctx):
@@ -830,10 +852,119 @@ def install(I):
                 raise Unsupported('index by %r' % (i,))
             # core's bounds checks (start <= end <= len) are trusted library semantics, recorded as an event
             ctx.st.events.append(('slice-index', r, s, e, lnv, ctx.loc, ctx.fr.f['name']))
+            if r.path and isinstance(r.path[-1], tuple) and r.path[-1][0] == 'sub' and isinstance(s, BV):
+                # a sub-slice of a sub-slice (`v[a..][..n]`) is one sub-slice of the original: [a + s, a + e)
+                _, s1, e1 = r.path[-1]
+                if isinstance(s1, BV):
+                    ns = ctx.I.binop(ctx.st, 'Add', s1, s, ctx.loc, ctx.fr) if not (s.is_const() and s.value() == 0) else s1
+                    ne = ctx.I.binop(ctx.st, 'Add', s1, e, ctx.loc, ctx.fr) if isinstance(e, BV) else e1
+                    if isinstance(ns, BV) and (ne is None or isinstance(ne, BV)):
+                        return Ref(r.loc, r.path[:-1] + (('sub', ns, ne),), r.raw)
             return Ref(r.loc, r.path + (('sub', s, e),), r.raw)
         raise Unsupported('index by %r' % (i,))
     P.append((re.compile(r'^core::array::<impl core::ops::Index(Mut)?<I> for \[T; N\]>::index(_mut)?$'), m_array_index))
     P.append((re.compile(r'^core::slice::index::<impl core::ops::Index(Mut)?<I> for \[T\]>::index(_mut)?$'), m_array_index))
+
+    # ---------------------------------------------------------------- slice iterators over arrays of known length (`for x in arr.iter()`)
+    SLICE_ITER = '~slice-iter'
+    ENUMERATE = '~enumerate'
+
+    def m_slice_iter(ctx):
+        r = ctx.args[0]
+        if not isinstance(r, Ref):
+            return ctx.I.opaque_call(ctx)
+        n = ctx.I.slice_len(ctx.st, r)
+        if not (isinstance(n, BV) and n.is_const() and n.value() <= 64):
+            return ctx.I.opaque_call(ctx)
+        return Struct(SLICE_ITER, [r, BV.const(64, 0), n])
+    M['core::slice::<impl [T]>::iter'] = m_slice_iter
+    M['core::slice::<impl [T]>::iter_mut'] = m_slice_iter
+
+    def m_enumerate(ctx):
+        it = ctx.args[0]
+        if isinstance(it, Struct) and it.name == SLICE_ITER:
+            return Struct(ENUMERATE, [it, BV.const(64, 0)])
+        return ctx.I.opaque_call(ctx)
+    M['core::iter::Iterator::enumerate'] = m_enumerate
+
+    def _slice_iter_step(it):
+        r, pos, n = it.fields
+        if pos.value() < n.value():
+            return Struct(SLICE_ITER, [r, BV.const(64, pos.value() + 1), n]), Ref(r.loc, r.path + (('idx', pos),), r.raw)
+        return it, None
+
+    def m_iter_next(ctx):
+        I, st = ctx.I, ctx.st
+        ref = ctx.args[0]
+        it = deref(ctx, ref) if isinstance(ref, Ref) else None
+        if isinstance(it, Struct) and it.name == SLICE_ITER:
+            it2, item = _slice_iter_step(it)
+            I._store_at(st, ref.loc, ref.path, it2)
+            return some(item) if item is not None else none()
+        if isinstance(it, Struct) and it.name == ENUMERATE and isinstance(it.fields[0], Struct) and it.fields[0].name == SLICE_ITER:
+            inner, item = _slice_iter_step(it.fields[0])
+            cnt = it.fields[1]
+            if item is None:
+                return none()
+            I._store_at(st, ref.loc, ref.path, Struct(ENUMERATE, [inner, BV.const(64, cnt.value() + 1)]))
+            return some(Struct('tuple', [cnt, item]))
+        return I.opaque_call(ctx)
+    P.append((re.compile(r"^<core::slice::Iter(Mut)?<'_, T> as core::iter::Iterator>::next$"), m_iter_next))
+    M['<core::iter::Enumerate<I> as core::iter::Iterator>::next'] = m_iter_next
+
+    def m_slice_get(ctx):
+        """`slice.get(i)` for an integer index: Some(&slice[i]) when i < len, None otherwise (both explored when the path does not decide)"""
+        I, st = ctx.I, ctx.st
+        r, i = ctx.args[0], ctx.args[1]
+        if not (isinstance(r, Ref) and isinstance(i, BV)):
+            return I.opaque_call(ctx)
+        ln = I.slice_len(st, r)
+        c = I.binop(st, 'Lt', i, ln, ctx.loc, ctx.fr)
+        elem = Ref(r.loc, r.path + (('idx', i),), r.raw)
+        if c.is_const():
+            return some(elem) if c.value() else none()
+        outs = []
+        s2 = st.clone()
+        if I.assume(s2, c.bits[0], 0) and not s2.dead:
+            outs.append(ctx.ret(none(), s2))
+        if I.assume(st, c.bits[0], 1) and not st.dead:
+            # a small table of constants read at an index the path does not fix: one path per element (a lookup table is a `match`)
+            arr = None
+            try:
+                arr = I.load(st, r)
+            except Unsupported:
+                pass
+            n = ln.value() if isinstance(ln, BV) and ln.is_const() else None
+            if isinstance(arr, Array) and n is not None and n <= 64 and len(arr.elems) == n and all(iv.is_const() for iv, _ in arr.elems.values()):
+                from .bits import eq_bit
+                for k in range(n):
+                    sk = st.clone()
+                    kv = BV.const(i.w, k)
+                    if I.assume(sk, eq_bit(tuple(I.norm(sk, i).bits), tuple(kv.bits)), 1) and not sk.dead:
+                        outs.append(ctx.ret(some(Ref(r.loc, r.path + (('idx', kv),), r.raw)), sk))
+                return outs
+            outs.append(ctx.ret(some(elem)))
+        return outs
+    M['core::slice::<impl [T]>::get'] = m_slice_get
+
+    def m_opt_copied(ctx):
+        v = ctx.args[0]
+        if isinstance(v, Enum) and v.vname == 'Some':
+            return some(deref(ctx, v.fields[0]))
+        if isinstance(v, Enum) and v.vname == 'None':
+            return none()
+        return ctx.I.opaque_call(ctx)
+    M['core::option::Option::<&T>::copied'] = m_opt_copied
+    M['core::option::Option::<&T>::cloned'] = m_opt_copied
+
+    def m_opt_flatten(ctx):
+        v = ctx.args[0]
+        if isinstance(v, Enum) and v.vname == 'Some' and isinstance(v.fields[0], Enum):
+            return v.fields[0]
+        if isinstance(v, Enum) and v.vname == 'None':
+            return none()
+        return ctx.I.opaque_call(ctx)
+    M['core::option::Option::<core::option::Option<T>>::flatten'] = m_opt_flatten
 
     def m_slice_len(ctx):
         return ctx.I.slice_len(ctx.st, ctx.args[0])
